@@ -706,7 +706,33 @@ class FnTrans:
             return self.rmw_loop(c, env, after)
         lets = []
         env1 = env.copy()
-        c = self.B(cond, env1, lets)
+        try:
+            c = self.B(cond, env1, lets)
+        except Unsupported as e:
+            if "side effect under short-circuit" not in str(e):
+                raise
+            # `if (a || b) T else E` with effects in b  ==>  `if (a) T else if (b) T else E` (and dually for &&)
+            c0 = cond
+            while True:
+                c0 = skip_paren(c0)
+                if c0.get("kind") == "CallExpr" and callee_name(c0) == "__builtin_expect":
+                    c0 = c0["inner"][1]
+                    continue
+                if c0.get("kind") in ("ImplicitCastExpr", "CStyleCastExpr") and c0.get("castKind") in (
+                        "IntegralCast", "IntegralToBoolean", "NoOp"):
+                    c0 = c0["inner"][0]
+                    continue
+                break
+            if c0.get("kind") != "BinaryOperator" or c0.get("opcode") not in ("||", "&&"):
+                raise
+            a, b = c0["inner"]
+            if c0["opcode"] == "||":
+                inner2 = {"kind": "IfStmt", "line": s.get("line", 0), "inner": [b, thn] + ([els] if els is not None else [])}
+                outer = {"kind": "IfStmt", "line": s.get("line", 0), "inner": [a, thn, inner2]}
+            else:
+                inner2 = {"kind": "IfStmt", "line": s.get("line", 0), "inner": [b, thn] + ([els] if els is not None else [])}
+                outer = {"kind": "IfStmt", "line": s.get("line", 0), "inner": [a, inner2] + ([els] if els is not None else [])}
+            return self.ifstmt(outer, env, k)
         # try join form when no branch leaves
         acc = []
         joinable = self.assigned_vars(thn, acc) and (els is None or self.assigned_vars(els, acc))
